@@ -6,7 +6,7 @@ import itertools
 
 import numpy as np
 
-from vlib.common import CaseResult, liesel_call, rng_for
+from vlib.common import CaseResult, liesel_call, off, rng_for
 
 ID = "C20"
 RULE = (
@@ -308,7 +308,7 @@ def case_optim(case, res):
         nlp = -float(np.sum(-0.5 * (y - X @ pos.astype(np.float64)) ** 2 - 0.5 * np.log(2 * np.pi))
                      + np.sum(-0.5 * (pos.astype(np.float64) / 10) ** 2 - np.log(10.0) - 0.5 * np.log(2 * np.pi)))
         res.mon("loss_at_reported_iteration_matches_position")
-        if abs(nlp - float(lt[at])) > 2e-3 * (1 + abs(nlp)):
+        if off(float(lt[at]), nlp, 2e-3 * (1 + abs(nlp))):
             res.violation("restored-position", f"training loss recorded at iteration {at} is {float(lt[at])}, the returned position has "
                           f"loss {nlp}", desc)
     # --- returned state consistent with returned position
